@@ -272,3 +272,15 @@ def check(ctx):
     s = ctx.sites(S["value"], "return self._value")
     ctx.ob("R10-g", S["value"], "value reports the counter", len(s) == 1, detail="" if s else "Semaphore.value is not `return self._value`",
            by=("return self._value",))
+
+    # ---- R10-h public classes, adapters and `async with` agree with the backend primitives -------------------------------------------
+    from .adapters import check_adapter, check_factory, check_async_with
+    check_adapter(ctx, "R10-h", "SemaphoreAdapter", "_internal_semaphore", "_semaphore", "create_semaphore",
+                  {"initial_value": "_initial_value", "max_value": "_max_value"}, value_members=("statistics",))
+    # fast_acquire is not kept by the adapter on the pinned tree: it only changes whether an uncontended acquire yields (never fewer
+    # checkpoints than documented), so its loss is not a violation of C10 and is not required here
+    check_factory(ctx, "R10-h", "Semaphore", "create_semaphore", "SemaphoreAdapter", adapter_args_may_drop=("fast_acquire",))
+    check_async_with(ctx, "R10-h", "Semaphore")
+    check_adapter(ctx, "R10-h", "CapacityLimiterAdapter", "_internal_limiter", "_limiter", "create_capacity_limiter", {},
+                  value_members=("statistics",), pre_state={"total_tokens": "self._total_tokens = $V"})
+    check_factory(ctx, "R10-h", "CapacityLimiter", "create_capacity_limiter", "CapacityLimiterAdapter")
